@@ -144,6 +144,14 @@ def content_robustness_part(rep, tier):
     for hi in range(0xa0, 0x100, 1 if tier == 'thorough' else 1):
         for lo in (0xa1, 0xc0, 0xfe):
             calls.append(call('make', bytes([hi, lo]), mode='hanzi'))
+    # every requested Micro version (any spelling) x content of every class, with and without mode: encoded or refused with a ValueError
+    for ver in ('M1', 'm1', 'M2', 'm2', 'M3', 'M4'):
+        for c in ('12345', 'ABC', 'abc', '', -1, 0, '\u70b9\u8317', b'\x00', 'Hello', '1' * 40):
+            calls.append(call('make', c, version=ver))
+            calls.append(call('make_micro', c, version=ver))
+            if ver in ('M1', 'M2'):
+                calls.append(call('make', c, version=ver, error='L'))
+                calls.append(call('make', c, version=ver, micro=True, boost_error=False))
     # sequences of multi-mode content are refused, sequences that would need more than 16 symbols overflow - both are ValueErrors
     calls += [call('make_sequence', ['12', 'ab'], symbol_count=2), call('make_sequence', ['12', 'ab'], version=1), call('make_sequence', ['12', '34'], symbol_count=2),
               call('make_sequence', 'x' * 400, version=1), call('make_sequence', '7' * 800, version=1, error='H'), call('make_sequence', 'x' * 20, symbol_count=17),
